@@ -32,9 +32,11 @@ cd /verif
 # now the checks against /repo with the patch
 if ! git -C /repo apply "$D/patch.diff"; then echo "repo_apply=failed" >> "$OUT"; cat "$OUT"; exit 1; fi
 CAUGHT=""
+VERIF_NO_EVIDENCE=1 ./run.sh check C03 quick >/dev/null 2>&1 </dev/null # make sure the checker binary is current before going parallel (result ignored)
+echo $PROPS | tr ' ' '\n' | VERIF_NO_EVIDENCE=1 xargs -P 7 -I{} sh -c './run.sh check {} quick > "'"$D"'/check_{}.log" 2>&1; echo $? > "'"$D"'/exit_{}.log"'
 for p in $PROPS; do
-	VERIF_NO_EVIDENCE=1 ./run.sh check $p quick > "$D/check_$p.log" 2>&1; E=$?
-	if [ $E -ne 0 ]; then CAUGHT="$CAUGHT $p"; fi
+	E=$(cat "$D/exit_$p.log")
+	if [ "$E" != "0" ]; then CAUGHT="$CAUGHT $p"; fi
 done
 git -C /repo checkout -- .
 echo "caught_by=$CAUGHT" >> "$OUT"
